@@ -15,5 +15,6 @@ func NewAnchor(name string) *Anchor {
 }
 
 func (c *Anchor) WriteHTMLTo(w io.Writer) (int64, error) {
-	return writeSprintf(w, `<a name="%s"/>`, c.name)
+	// The name often comes from the GEDCOM file (like a surname).
+	return writeSprintf(w, `<a name="%s"/>`, escapeAttribute(c.name))
 }
